@@ -118,6 +118,7 @@ func TestC07Parsers(t *testing.T) {
 		kind := kind
 		t.Run(kind, func(t *testing.T) {
 			rapid.Check(t, func(t *rapid.T) {
+				decorrelate(t, kind)
 				cfg := genPCfg(t, kind, 300)
 				// small windows, block sizes from 1 to beyond 4*W
 				opts := pipeOpts()
